@@ -123,8 +123,9 @@ def fragment(draw, specials=()):
     if kind == 'word':
         return draw(cased(draw(st.sampled_from(WORDS))))
     if kind == 'multi':
-        a, b = draw(st.sampled_from(WORDS[:9])), draw(st.sampled_from(WORDS[:9]))
-        return draw(cased(a)) + draw(cased(b))
+        # 2-4 vocabulary words glued together (tails of longer multi-words reappear as shorter ones)
+        k = draw(st.sampled_from([2, 2, 3, 3, 4]))
+        return ''.join(draw(cased(draw(st.sampled_from(WORDS[:9])))) for _ in range(k))
     if kind == 'digits':
         return draw(st.text('0123456789', min_size=1, max_size=6))
     if kind == 'year':
